@@ -172,39 +172,82 @@ func c13(r *core.Run) {
 		r.Undecided("C13/R1", "jklmint:BeginBlock:anchor-missing", "", "jklmint BeginBlock calls nothing")
 		return
 	}
-	// unit = function on the path that reads the previous record
+	// the emission call: a call on the path whose callee has the recurrence shape; its function is the unit
 	var unit *ssa.Function
-	var getCall *ssa.Call
+	var emission *ssa.Call
 	for _, fn := range p.Summary(entry).Funcs {
 		allInstrs(fn, func(in ssa.Instruction) {
-			if c, ok := in.(*ssa.Call); ok {
+			if c, ok := in.(*ssa.Call); ok && emission == nil {
 				for _, cal := range p.Callees(c) {
-					if gi := p.StoreGetter(cal); gi != nil && gi.Module+"/"+gi.Prefix == mintPrefix && fn != cal {
-						unit, getCall = fn, c
+					if ok2, _ := recurrenceShape(p, cal); ok2 {
+						unit, emission = fn, c
 					}
 				}
 			}
 		})
 	}
-	if unit == nil {
-		r.Violation("C13/R6", "blockmint:previous-record-read", p.Pos(entry.Pos()), "the block-emission path never reads the previous block's emission record")
+	if emission == nil {
+		r.Violation("C13/R2", "blockmint:recurrence-call", p.Pos(entry.Pos()), "no call on the block-emission path computes trunc(prev − decrease/blocksPerYear)")
 		return
 	}
 	r.Analysed(core.FnName(unit))
-	// the emission value: call whose argument depends on the previous record's Minted
-	var emission *ssa.Call
-	allInstrs(unit, func(in ssa.Instruction) {
-		if c, ok := in.(*ssa.Call); ok && c != getCall && len(p.Callees(c)) == 1 {
-			for _, a := range dataArgs(c) {
-				if p.ProvAt(a, "", c).HasStore(mintPrefix, ".Minted") && emission == nil && c.Type().String() == "int64" {
-					emission = c
+	// the lookup of the previous record (in the unit or in a helper it calls)
+	var getCall *ssa.Call
+	var getFn *ssa.Function
+	for _, fn := range p.Summary(entry).Funcs {
+		allInstrs(fn, func(in ssa.Instruction) {
+			if c, ok := in.(*ssa.Call); ok {
+				for _, cal := range p.Callees(c) {
+					if gi := p.StoreGetter(cal); gi != nil && gi.Module+"/"+gi.Prefix == mintPrefix && fn != cal {
+						getCall, getFn = c, fn
+					}
+				}
+			}
+		})
+	}
+	if getCall == nil {
+		r.Violation("C13/R6", "blockmint:previous-record-read", p.Pos(entry.Pos()), "the block-emission path never reads the previous block's emission record")
+		return
+	}
+	// the fallback to Param(TokensPerBlock) is taken only when no previous record exists
+	{
+		notFound := p.PassEdges(getFn, foundGuard(p, mintPrefix, false))
+		isFallback := func(v ssa.Value, at ssa.Instruction) bool {
+			pr := p.ResolveToEntry(p.ProvAt(v, "", at), entry)
+			return pr.HasParams("jklmint", ".TokensPerBlock") && !pr.HasStore(mintPrefix, ".Minted")
+		}
+		bad := ""
+		for _, b := range getFn.Blocks {
+			for _, in := range b.Instrs {
+				switch x := in.(type) {
+				case *ssa.Phi:
+					for i, e := range x.Edges {
+						if !isFallback(e, x) {
+							continue
+						}
+						pred := b.Preds[i]
+						// the edge pred->b must be a not-found edge, or pred reachable only through one
+						edgeIsNF := false
+						for si, sb := range pred.Succs {
+							if sb == b && notFound[core.Edge{From: pred, Succ: si}] {
+								edgeIsNF = true
+							}
+						}
+						if !edgeIsNF && core.PathExists(getFn, notFound, pred.Instrs[len(pred.Instrs)-1], nil) {
+							bad = p.InstrPos(pred.Instrs[len(pred.Instrs)-1])
+						}
+					}
+				case *ssa.Return:
+					if getFn == unit || len(x.Results) == 0 {
+						continue
+					}
+					if isFallback(x.Results[0], x) && core.PathExists(getFn, notFound, x, nil) {
+						bad = p.InstrPos(x)
+					}
 				}
 			}
 		}
-	})
-	if emission == nil {
-		r.Violation("C13/R2", "blockmint:recurrence-call", p.Pos(unit.Pos()), "no emission value computed from the previous block's recorded emission")
-		return
+		r.Check(bad == "", "C13/R2", "recurrence:fallback-only-when-no-record", p.InstrPos(getCall), "Param(TokensPerBlock) replaces the previous emission only on Found(previous record)=false", "the recurrence restarts from Param(TokensPerBlock) although a previous record exists (e.g. when its value is 0): the emission jumps back up @"+bad)
 	}
 	isEmission := func(v ssa.Value) bool {
 		// the emission call itself or a sign-guarded phi of it with constants
